@@ -26,11 +26,15 @@ pub fn convert_handle(ast: &ASTTy, imp: &mut Imports, state: &State, ctx: &Conte
             let assign_state = state.must_assign_to(var.as_deref(), expr_or_stmt.ty.clone());
             Core::TryExcept {
                 setup: var.map(|var| {
-                    Box::from(Core::VarDef {
-                        var,
-                        ty,
-                        expr: None,
-                    })
+                    // a tuple of targets cannot be annotated, and takes a tuple of placeholders
+                    let (ty, expr) = match var.as_ref() {
+                        Core::Tuple { elements } | Core::TupleLiteral { elements } => {
+                            let elements = vec![Core::None; elements.len()];
+                            (None, Some(Box::from(Core::Tuple { elements })))
+                        }
+                        _ => (ty, None),
+                    };
+                    Box::from(Core::VarDef { var, ty, expr })
                 }),
                 attempt: Box::from(convert_node(&expr_or_stmt.clone(), imp, state, ctx)?),
                 except: {
